@@ -529,14 +529,34 @@ type loadFmtResult struct {
 	StorePos  string
 }
 
-func loadMastFormatCase(c *Ctx, fn *ssa.Function, s string) (*loadFmtResult, string) {
-	if len(fn.Params) < 1 {
-		return nil, "LoadMast has no receiver"
-	}
-	recv := fn.Params[0]
-	isNF := func(v ssa.Value) bool {
-		p, path, ok := fxParamField(v)
-		return ok && p == recv && path == "NodeFormat"
+// fmtEval is the evaluation of one function under "the format-name subject
+// equals s"; static in-repo callees that receive the subject as an argument
+// are evaluated too (depth ≤ 2) with the parameter standing for the subject,
+// and their error result decides `err != nil` in the caller.
+type fmtEval struct {
+	fn      *ssa.Function
+	as      *fxAssume
+	reach   map[*ssa.BasicBlock]bool
+	calls   map[*ssa.Call]*fmtEval
+	errNil  int // of fn's reachable returns: 0 unknown/mixed, 1 all nil, 2 all non-nil
+	subject func(ssa.Value) bool
+}
+
+func evalFormatFn(c *Ctx, fn *ssa.Function, isSubject func(ssa.Value) bool, s string, depth int) *fmtEval {
+	ev := &fmtEval{fn: fn, calls: map[*ssa.Call]*fmtEval{}, subject: isSubject}
+	if depth < 2 {
+		for _, call := range staticCallsIn(fn) {
+			callee := ir.Callee(call.Call)
+			if !fxOwnFunc(callee) || callee == fn {
+				continue
+			}
+			for i, a := range call.Call.Args {
+				if isSubject(a) && i < len(callee.Params) {
+					p := callee.Params[i]
+					ev.calls[call] = evalFormatFn(c, callee, func(v ssa.Value) bool { return fxStrip(v) == ssa.Value(p) }, s, depth+1)
+				}
+			}
+		}
 	}
 	resolve := func(v ssa.Value) constant.Value {
 		if str, ok := fxStringOf(c.P, v); ok {
@@ -544,22 +564,136 @@ func loadMastFormatCase(c *Ctx, fn *ssa.Function, s string) (*loadFmtResult, str
 		}
 		return nil
 	}
-	as := &fxAssume{
+	ev.as = &fxAssume{
 		decide: func(cond ssa.Value) (bool, bool) {
+			if v, tnn, ok := ir.NilTest(cond); ok && ir.IsErrorType(v.Type()) {
+				if call, idx := fxCallOf(v); call != nil {
+					if sub := ev.calls[call]; sub != nil && idx == ir.ErrorResultIndex(sub.fn.Signature) && sub.errNil != 0 {
+						return tnn == (sub.errNil == 2), true
+					}
+				}
+				return false, false
+			}
 			if bin, ok := cond.(*ssa.BinOp); ok && (bin.Op == token.EQL || bin.Op == token.NEQ) {
-				return fxCmpConst(bin, isNF, resolve, constant.MakeString(s))
+				return fxCmpConst(bin, isSubject, resolve, constant.MakeString(s))
 			}
 			return false, false
 		},
-		relevant: func(cond ssa.Value) bool { return strings.Contains(ir.Sym(cond), "P:"+recv.Name()+".NodeFormat") },
+		relevant: func(cond ssa.Value) bool { return mentionsValue(cond, isSubject, 0) },
 	}
-	reach := as.reach(fn.Blocks[0])
-	res := &loadFmtResult{Open: as.open(reach), StorePos: c.P.Pos(fn.Pos())}
+	ev.reach = ev.as.reach(fn.Blocks[0])
+	ei := ir.ErrorResultIndex(fn.Signature)
+	nNil, nNon, nOther := 0, 0, 0
 	for _, r := range ir.Returns(fn) {
-		if !reach[r.Block()] {
+		if !ev.reach[r.Block()] || ei < 0 || ei >= len(r.Results) {
 			continue
 		}
-		ei := ir.ErrorResultIndex(fn.Signature)
+		switch {
+		case ir.IsNilConst(r.Results[ei]):
+			nNil++
+		case freshError(r.Results[ei]):
+			nNon++
+		default:
+			nOther++
+		}
+	}
+	switch {
+	case nOther == 0 && nNil > 0 && nNon == 0:
+		ev.errNil = 1
+	case nOther == 0 && nNon > 0 && nNil == 0:
+		ev.errNil = 2
+	}
+	return ev
+}
+
+// open lists undecided relevant conditions here and in the evaluated callees.
+func (ev *fmtEval) open() []ssa.Value {
+	out := ev.as.open(ev.reach)
+	for call, sub := range ev.calls {
+		if ev.reach[call.Block()] {
+			out = append(out, sub.open()...)
+		}
+	}
+	return out
+}
+
+// strings resolves v to format names, following results of evaluated callees.
+func (ev *fmtEval) strings(c *Ctx, v ssa.Value) (strs []string, unres []ssa.Value) {
+	for _, l := range ev.as.leaves(v, ev.reach) {
+		if str, ok := fxStringOf(c.P, l); ok {
+			strs = append(strs, str)
+			continue
+		}
+		if call, idx := fxCallOf(l); call != nil {
+			if sub := ev.calls[call]; sub != nil {
+				n := 0
+				for _, r := range fxSuccessReturns(sub.fn) {
+					if sub.reach[r.Block()] && idx < len(r.Results) {
+						n++
+						s2, u2 := sub.strings(c, r.Results[idx])
+						strs = append(strs, s2...)
+						unres = append(unres, u2...)
+					}
+				}
+				if n > 0 {
+					continue
+				}
+			}
+		}
+		unres = append(unres, l)
+	}
+	return
+}
+
+// compared lists the format names the subject is compared with, here and in
+// the evaluated callees.
+func (ev *fmtEval) compared(c *Ctx) []string {
+	var got []string
+	for _, b := range ev.fn.Blocks {
+		if len(b.Instrs) == 0 {
+			continue
+		}
+		iff, ok := b.Instrs[len(b.Instrs)-1].(*ssa.If)
+		if !ok {
+			continue
+		}
+		bin, ok := iff.Cond.(*ssa.BinOp)
+		if !ok {
+			continue
+		}
+		for _, pr := range [][2]ssa.Value{{bin.X, bin.Y}, {bin.Y, bin.X}} {
+			if ev.subject(pr[0]) {
+				if str, ok := fxStringOf(c.P, pr[1]); ok {
+					got = append(got, str)
+				}
+			}
+		}
+	}
+	for _, sub := range ev.calls {
+		got = append(got, sub.compared(c)...)
+	}
+	return got
+}
+
+func loadMastSubject(fn *ssa.Function) func(ssa.Value) bool {
+	recv := fn.Params[0]
+	return func(v ssa.Value) bool {
+		p, path, ok := fxParamField(v)
+		return ok && p == recv && path == "NodeFormat"
+	}
+}
+
+func loadMastFormatCase(c *Ctx, fn *ssa.Function, s string) (*loadFmtResult, string) {
+	if len(fn.Params) < 1 {
+		return nil, "LoadMast has no receiver"
+	}
+	ev := evalFormatFn(c, fn, loadMastSubject(fn), s, 0)
+	res := &loadFmtResult{Open: ev.open(), StorePos: c.P.Pos(fn.Pos())}
+	ei := ir.ErrorResultIndex(fn.Signature)
+	for _, r := range ir.Returns(fn) {
+		if !ev.reach[r.Block()] {
+			continue
+		}
 		if ei >= 0 && ei < len(r.Results) && ir.IsNilConst(r.Results[ei]) {
 			res.Success = true
 		} else {
@@ -576,17 +710,23 @@ func loadMastFormatCase(c *Ctx, fn *ssa.Function, s string) (*loadFmtResult, str
 		return res, fmt.Sprintf("Mast.nodeFormat has %d initialisations in LoadMast", len(sts))
 	}
 	res.StorePos = c.P.InstrPos(sts[0].St)
-	if !reach[sts[0].St.Block()] {
+	if !ev.reach[sts[0].St.Block()] {
 		return res, ""
 	}
-	for _, l := range as.leaves(sts[0].Val, reach) {
-		if str, ok := fxStringOf(c.P, l); ok {
-			res.Stored = append(res.Stored, str)
-		} else {
-			res.Unres = append(res.Unres, l)
+	res.Stored, res.Unres = ev.strings(c, sts[0].Val)
+	return res, ""
+}
+
+// loadMastCompared: the non-empty format names LoadMast (or the helper it
+// delegates to) compares Root.NodeFormat with.
+func loadMastCompared(c *Ctx, fn *ssa.Function) []string {
+	var out []string
+	for _, s := range evalFormatFn(c, fn, loadMastSubject(fn), "", 0).compared(c) {
+		if s != "" {
+			out = append(out, s)
 		}
 	}
-	return res, ""
+	return out
 }
 
 func runFormatLoadFmt(c *Ctx) {
@@ -709,7 +849,7 @@ func stringNodeStruct(c *Ctx) (*types.Struct, *ssa.Function, ssa.Instruction) {
 		}
 		for _, ci := range CallsOf(fn) {
 			com := ci.Common()
-			if com.IsInvoke() || com.StaticCallee() != nil || len(com.Args) != 2 {
+			if com.IsInvoke() || ir.Callee(com) != nil || len(com.Args) != 2 {
 				continue
 			}
 			mi, ok := com.Args[1].(*ssa.MakeInterface)
@@ -875,7 +1015,7 @@ func runFormatKeyOrder(c *Ctx) {
 				com := call.Common()
 				ok = com.IsInvoke() && com.Method.Name() == "Order" && sideOf(fn, com.Value) == "L" && len(com.Args) == 1 && sideOf(fn, com.Args[0]) == "R"
 			} else if call != nil {
-				sc := call.Common().StaticCallee()
+				sc := ir.Callee(call.Common())
 				ok = sc != nil && fxFullName(sc) == "bytes.Compare" && sideOf(fn, call.Common().Args[0]) == "L" && sideOf(fn, call.Common().Args[1]) == "R"
 			}
 			if ok {
@@ -939,7 +1079,7 @@ func runFormatKeyOrder(c *Ctx) {
 		call, _ := r.Results[0].(*ssa.Call)
 		ok := false
 		if call != nil {
-			if sc := call.Common().StaticCallee(); sc != nil && fxFullName(sc) == "bytes.Compare" {
+			if sc := ir.Callee(call.Common()); sc != nil && fxFullName(sc) == "bytes.Compare" {
 				a, b := marshalledSide(fn, call.Common().Args[0]), marshalledSide(fn, call.Common().Args[1])
 				ok = a == "L" && b == "R"
 			}
@@ -1043,7 +1183,7 @@ func orderedResults(c *Ctx, fn *ssa.Function, side func(ssa.Value) string, from 
 // fn's parameters.
 func marshalledSide(fn *ssa.Function, v ssa.Value) string {
 	call, idx := fxCallOf(v)
-	if call == nil || idx != 0 || call.Common().IsInvoke() || call.Common().StaticCallee() != nil || len(call.Common().Args) != 1 {
+	if call == nil || idx != 0 || call.Common().IsInvoke() || ir.Callee(call.Common()) != nil || len(call.Common().Args) != 1 {
 		return ""
 	}
 	if _, ok := ir.ResolveCell(call.Common().Value).(*ssa.FreeVar); !ok {
@@ -1461,7 +1601,7 @@ func runFormatLayer(c *Ctx) {
 		case "signed", "unsigned":
 			wantSig := map[string]string{"signed": "func(v int64, branchFactor uint) uint8", "unsigned": "func(v uint64, branchFactor uint) uint8"}[k]
 			wantParam := map[string]string{"signed": "int64", "unsigned": "uint64"}[k]
-			sc := com.StaticCallee()
+			sc := ir.Callee(com)
 			if sc == nil || len(com.Args) != 2 || sc.Signature.Params().Len() != 2 ||
 				fxTypeString(sc.Signature.Params().At(0).Type()) != wantParam ||
 				fxTypeString(sc.Signature.Params().At(1).Type()) != "uint" ||
@@ -1519,7 +1659,7 @@ func runFormatLayer(c *Ctx) {
 	checkBlobCall := func(construct string, ret *ssa.Return, call *ssa.Call, arg0ok func(ssa.Value) bool) {
 		rpos := c.P.InstrPos(ret)
 		com := call.Common()
-		sc := com.StaticCallee()
+		sc := ir.Callee(com)
 		if sc == nil || len(com.Args) != 2 || !arg0ok(com.Args[0]) || com.Args[1] != ssa.Value(fn.Params[1]) {
 			c.Violation(fn, rpos, construct, "does not pass (key bytes, branchFactor) to the CRC layer function")
 			return
@@ -1630,7 +1770,7 @@ func runFormatTrim(c *Ctx) {
 	var mcall *ssa.Call
 	for _, ci := range CallsOf(fn) {
 		call, ok := ci.(*ssa.Call)
-		if !ok || ci.Common().IsInvoke() || ci.Common().StaticCallee() != nil {
+		if !ok || ci.Common().IsInvoke() || ir.Callee(ci.Common()) != nil {
 			continue
 		}
 		if p, ok := ir.ResolveCell(ci.Common().Value).(*ssa.Parameter); ok && len(ci.Common().Args) == 1 {
@@ -1795,7 +1935,7 @@ func resolveCounter(x ssa.Value, fn *ssa.Function, recv ssa.Value, depth int) (s
 	if call == nil || depth >= 2 {
 		return x, fn, recv
 	}
-	callee := call.Call.StaticCallee()
+	callee := ir.Callee(call.Call)
 	if callee == nil || !fxOwnFunc(callee) {
 		return x, fn, recv
 	}
@@ -1868,7 +2008,7 @@ func flushMarshalClosure(c *Ctx) (*ssa.Function, *ssa.Function) {
 		return nil, nil
 	}
 	for _, ci := range CallsOf(flush) {
-		if ci.Common().StaticCallee() != store {
+		if ir.Callee(ci.Common()) != store {
 			continue
 		}
 		for _, a := range ci.Common().Args {
@@ -1902,7 +2042,7 @@ func fxRealFunc(v ssa.Value) *ssa.Function {
 			for _, ins := range b.Instrs {
 				if ci, ok := ins.(ssa.CallInstruction); ok {
 					n++
-					next = ci.Common().StaticCallee()
+					next = ir.Callee(ci.Common())
 				}
 			}
 		}
@@ -2015,7 +2155,7 @@ func fromAssertedNode(fn *ssa.Function, v ssa.Value) bool {
 
 func isMastCallback(ci *ssa.Call, field string) bool {
 	com := ci.Common()
-	if com.IsInvoke() || com.StaticCallee() != nil {
+	if com.IsInvoke() || ir.Callee(com) != nil {
 		return false
 	}
 	b, p, ok := fxFieldLoad(com.Value)
@@ -2097,7 +2237,7 @@ func runFormatV1Input(c *Ctx) {
 				continue
 			}
 			call, idx := fxCallOf(r.Results[0])
-			if call == nil || idx != 0 || enc == nil || call.Call.StaticCallee() != enc {
+			if call == nil || idx != 0 || enc == nil || ir.Callee(call.Call) != enc {
 				c.Violation(fn, c.P.InstrPos(r), construct, "under v1.1.5binary the node bytes are not the result of marshalMastNode")
 				continue
 			}
